@@ -19,7 +19,8 @@ import (
 // The operation is part of the schedule (closed loop), so a non-converging run replays.
 
 const (
-	healTimeouts    = 25 // election timeouts allowed for reaching one leader and equal logs
+	healTimeouts    = 25  // election timeouts after which a cluster that stopped changing is given up
+	healMaxTimeouts = 300 // ... and one whose terms still move (competing candidates without PreVote: liveness is probabilistic)
 	healProposals   = 3
 	healAfterwards  = 12 // election timeouts allowed for the proposals made afterwards
 	healFlushRounds = 12
@@ -257,6 +258,51 @@ func (c *Cluster) debugStateAlways(tag string) {
 	}
 }
 
+// duel: there is no leader, but some member that could win an election (it is a voter of its own
+// configuration, has nothing committed but unapplied that would stop it from campaigning, and the
+// members whose logs are not ahead of its own form a quorum of every voter set of its
+// configuration) has campaigned since round [since].
+func (c *Cluster) duel(members map[uint64]bool, campaigned map[uint64]int, since int) bool {
+	type info struct {
+		d raft.VerifDump
+		v logView
+	}
+	st := map[uint64]info{}
+	for _, n := range c.alive() {
+		if n.rn == nil || !members[n.id] {
+			continue
+		}
+		d := n.rn.VerifState()
+		if d.State == raft.StateLeader {
+			return false
+		}
+		st[n.id] = info{d, n.logView(&d)}
+	}
+	for id, m := range st {
+		pr, ok := m.d.Progress[id]
+		if !ok || pr.IsLearner || m.d.Applied < m.d.Committed {
+			continue
+		}
+		if r, ok := campaigned[id]; !ok || r < since {
+			continue
+		}
+		grants := func(q uint64) bool {
+			if q == id {
+				return true
+			}
+			o, ok := st[q]
+			if !ok {
+				return false
+			}
+			return m.v.lastTerm() > o.v.lastTerm() || (m.v.lastTerm() == o.v.lastTerm() && m.v.last() >= o.v.last())
+		}
+		if jointQuorum(m.d.Config, grants) {
+			return true
+		}
+	}
+	return false
+}
+
 // signature: what heal looks at to decide that nothing moves any more (timers excluded).
 func (c *Cluster) signature() string {
 	var sb strings.Builder
@@ -315,12 +361,25 @@ func (c *Cluster) heal() {
 	// a cluster whose nodes have not changed at all for more than three election timeouts (every
 	// randomized timeout has fired by then) will not change any more: stop waiting
 	last, same := "", 0
-	for ; rounds < healTimeouts*et && !c.stopped; rounds++ {
+	campaigned := map[uint64]int{}
+	maxT := healMaxTimeouts
+	if v := os.Getenv("VERIF_HEAL_MAX"); v != "" {
+		fmt.Sscan(v, &maxT)
+	}
+	for ; rounds < maxT*et && !c.stopped; rounds++ {
 		members = c.settle(retired)
 		if len(members) == 0 {
 			return
 		}
 		c.healRound()
+		if os.Getenv("VERIF_HEAL_TRACE") != "" {
+			fmt.Fprintf(os.Stderr, "round %d:", rounds)
+			for _, n := range c.alive() {
+				d := n.rn.VerifState()
+				fmt.Fprintf(os.Stderr, " %d:%s/t%d/ee%d/ret%d/v%d", n.id, d.State, d.Term, d.ElectionElapsed, d.RandomizedElectionTimeout, d.Vote)
+			}
+			fmt.Fprintln(os.Stderr)
+		}
 		if st = c.converged(c.settle(retired)); st.ok {
 			break
 		}
@@ -331,6 +390,14 @@ func (c *Cluster) heal() {
 		} else {
 			last, same = sig, 0
 		}
+		for _, n := range c.alive() {
+			if d := n.rn.VerifState(); d.State == raft.StateCandidate || d.State == raft.StatePreCandidate || d.State == raft.StateLeader {
+				campaigned[n.id] = rounds
+			}
+		}
+		if rounds >= healTimeouts*et && !c.duel(members, campaigned, rounds-healTimeouts*et/2) {
+			break // nobody who could win an election is still trying: the group will not converge
+		}
 	}
 	if c.stopped || len(c.tainted) > 0 {
 		return
@@ -338,10 +405,18 @@ func (c *Cluster) heal() {
 	members = c.settle(retired)
 	if st = c.converged(members); !st.ok {
 		if c.twoVoterException(members) {
+			c.mon.excepted++
+			return
+		}
+		if rounds >= healTimeouts*et && c.duel(members, campaigned, rounds-healTimeouts*et/2) {
+			// an election that can still be won is being fought for a very long time: competing
+			// candidates without PreVote / CheckQuorum, typically one of them a voter whose stale
+			// configuration does not know the other. Liveness is probabilistic there; not decided.
+			c.mon.undecided++
 			return
 		}
 		c.debugState("no convergence")
-		c.mon.report("C15", "", "no convergence %d election timeouts after the faults stopped: %s", healTimeouts, st.why)
+		c.mon.report("C15", "", "no convergence %d election timeouts after the faults stopped: %s", rounds/et, st.why)
 		return
 	}
 	c.mon.healed++
@@ -370,7 +445,9 @@ func (c *Cluster) heal() {
 	}
 	members = c.settle(retired)
 	if st = c.converged(members); !st.ok {
-		if !c.twoVoterException(members) {
+		if c.twoVoterException(members) {
+			c.mon.excepted++
+		} else {
 			c.mon.report("C15", "", "proposals after convergence: no convergence within %d election timeouts: %s", healAfterwards, st.why)
 		}
 		return
